@@ -347,7 +347,7 @@ namespace
     // more than 1024 nodes (a pool may treat short loops differently), and slabs whose thermal model keeps a workspace (two spline sizes in one world)
     {"c3_10x10x10", "grid_type = cartesian\ndim = 3\ncompositions = 2\nvtu_output_format = ASCII\nx_min = -450e3\nx_max = 450e3\ny_min = -300e3\ny_max = 300e3\nz_min = 500e3\nz_max = 1000e3\nn_cell_x = 10\nn_cell_y = 10\nn_cell_z = 10\n", false, 0},
     {"c3_splines_12x9x8", "grid_type = cartesian\ndim = 3\ncompositions = 2\nvtu_output_format = ASCII\nx_min = -480e3\nx_max = 420e3\ny_min = -350e3\ny_max = 460e3\nz_min = 650e3\nz_max = 1000e3\nn_cell_x = 12\nn_cell_y = 9\nn_cell_z = 8\n", false, 1},
-    {"chunk3_fine_over_depth_surfaces", "grid_type = chunk\ndim = 3\ncompositions = 2\nvtu_output_format = ASCII\nx_min = -3\nx_max = -2\ny_min = -0.06\ny_max = 0.06\nz_min = 6151e3\nz_max = 6371e3\nn_cell_x = 25\nn_cell_y = 3\nn_cell_z = 4\n", true, 2},
+    {"chunk3_fine_over_depth_surfaces", "grid_type = chunk\ndim = 3\ncompositions = 2\nvtu_output_format = ASCII\nx_min = 3.4\nx_max = 3.88\ny_min = -2.0\ny_max = -1.52\nz_min = 6241e3\nz_max = 6371e3\nn_cell_x = 12\nn_cell_y = 12\nn_cell_z = 65\n", true, 2},
     {"c2_splines_40x12", "grid_type = cartesian\ndim = 2\ncompositions = 2\nvtu_output_format = ASCII\nx_min = 0\nx_max = 900e3\nz_min = 650e3\nz_max = 1000e3\nn_cell_x = 40\nn_cell_z = 12\n", false, 1},
   };
   std::string slurp(const std::string &p) { std::ifstream f(p, std::ios::binary); std::stringstream ss; ss << f.rdbuf(); return ss.str(); }
@@ -356,7 +356,7 @@ namespace
     (void)!system(("rm -rf " + dir + " && mkdir -p " + dir).c_str());
     worlds::Opt o; o.spherical = g.spherical; o.cross_section = true;
     if (g.world == 1) { o.slab_model = 2; o.second_slab = true; }
-    if (g.world == 2) o.depth_points = true;     // columns 0.04 degrees apart over depth surfaces given at points
+    if (g.world == 2) o.depth_points = true;     // columns 0.04 degrees apart, nodes every 2 km, over the top of the mantle layer, which is given at points and slopes by 700 m from column to column there (the only such surface consulted on the oceanic side)
     { std::ofstream f(dir + "/w.wb"); f << worlds::rich(o); }
     { std::ofstream f(dir + "/g.grid"); f << g.text; }
     const std::string cmd = "cd " + dir + " && /verif/build/rel/bin/gwb-grid -j " + std::to_string(j) + " --filtered --by-tag w.wb g.grid > out.log 2>&1";
